@@ -58,9 +58,9 @@ T2 = {
     "index|model::parser::model::convert_tree|Vec::index|2":
         (r"orig_tree\.nodes, 0", "inside the branch guarded by nodes.len() == 1"),
     "overflow|model::parser::model::convert_tree::{closure#1}|Add|0":
-        (r"Add\(v, len\(", "v < pdfs.len() <= 2*nodes.len(); both are lengths of in-memory Vecs"),
+        (r"Add\(%1, len\(", "v < pdfs.len() <= 2*nodes.len(); both are lengths of in-memory Vecs"),
     "overflow|model::parser::model::convert_tree::{closure#2}|Add|0":
-        (r"Add\(v, len\(", "v < pdfs.len() <= 2*nodes.len(); both are lengths of in-memory Vecs"),
+        (r"Add\(%1, len\(", "v < pdfs.len() <= 2*nodes.len(); both are lengths of in-memory Vecs"),
     "index|model::voice::model::ModelParameter::from_linear|Vec::index|0":
         (r"Vec::index\(lin, ", "i ranges over 0..len with len = lin.len()/2 <= lin.len()"),
     "index|model::voice::model::ModelParameter::from_linear|Vec::index|1":
@@ -228,12 +228,12 @@ def run(ctx):
             if ent:
                 rx, reason = ent
                 used_t2.add(s.key)
-                if re.search(rx, s.detail):
+                if re.search(rx, s.shape()):
                     tiers["T2"] += 1
                     ctx.ok(rule, "T2 %s  %s" % (s.key, s.detail[:120]), s.loc(), reason)
                     continue
                 ctx.fail(rule, s.fn, "%s %s" % (s.kind, s.api),
-                         "audited site changed shape: expected /%s/ in `%s` (audit: %s)" % (rx, s.detail, reason),
+                         "audited site changed shape: expected /%s/ in `%s` (audit: %s)" % (rx, s.shape(), reason),
                          s.loc(), extra={"site_key": s.key})
                 tiers["finding"] += 1
                 continue
@@ -322,8 +322,16 @@ def r4(ctx, p):
     lm = p.body("engine::Condition::load_model")
     if lm is not None:
         eb3 = ExprBuilder(lm)
-        names = {d.get("name"): l for l, d in enumerate(lm.locals) if d.get("name")}
-        if "nstream" in names and show(eb3.local(names["nstream"])).endswith("global_metadata(voices).num_streams"):
+        # by role: every per-stream size in load_model ([x].repeat(n), InterporationWeight::new(_, n))
+        sizes = []
+        for bb_, t_ in lm.calls():
+            c_ = t_["callee"]
+            nm_ = cm.callee_name(c_) if c_["k"] == "fndef" else ""
+            if nm_.endswith("::repeat") and len(t_["args"]) == 2:
+                sizes.append(show(eb3.at(bb_).op(t_["args"][1])))
+            if nm_.endswith("InterporationWeight::new") and len(t_["args"]) == 2:
+                sizes.append(show(eb3.at(bb_).op(t_["args"][1])))
+        if len(sizes) >= 3 and all(s_.endswith("global_metadata(voices).num_streams") for s_ in sizes):
             ctx.ok("C18-R4", "load_model sizes its per-stream vectors with metadata.num_streams", lm.loc())
         else:
             ctx.fail("C18-R4", lm.path, "nstream", "nstream is not metadata.num_streams", lm.loc())
